@@ -6,7 +6,6 @@ import (
 	"fmt"
 	"io"
 	"net/http"
-	"net/url"
 	"strings"
 	"sync"
 
@@ -54,7 +53,7 @@ func (d *uriDecoder) readLine(data string, commonHeader http.Header) (DecodedAmm
 
 	var rawURL string
 	rawURL, tag, _ := strings.Cut(data, " ")
-	_, err := url.Parse(rawURL)
+	_, err := util.ParseURI(rawURL)
 	if err != nil {
 		return nil, err
 	}
